@@ -25,7 +25,14 @@ DESC = {
     'C17-a': 'Err-arm name indices swapped', 'C17-b': 'brace macro calls hoisted as blocks', 'C17-c': 'capture names restart inside each wrapper', 'C17-d': 'thread number = position among live branches',
     'C18-a': 'finished branch joined at the end', 'C18-b': 'last-step threads joined lazily', 'C18-c': 'tail of the single deepest branch appended to the last joint step',
     'C19-a': 'wrapper closure made `move`', 'C19-b': 'long async steps `.boxed()` (Send)',
-    'C20-a': 'match arms in HashMap order', 'C20-b': 'sticky static "needs __inspect" flag',
+    'C20-a': 'match arms in HashMap order', 'C20-b': 'sticky static "needs __inspect" flag', 'C20-c': 'thread-local name cache poisoned by non-dense index requests', 'C20-d': 'generated-name prefix in a process-wide static reset per expansion',
+    'C01-c': 'process-side hoisted definitions emitted in reverse order', 'C01-d': 'async `~->` passes the resolved value instead of a future',
+    'C06-d': 'failure check dropped for steps of "non-failing" operators (misses ?>, >^>, ^^> on Option)',
+    'C07-c': 'async-spawn try macros wait for all tasks (no fail-fast, lowest index wins)', 'C07-d': 'spawn helper bound `T: Send + Sync`',
+    'C10-c': 'handler operand bound lazily (0 evaluations on failure)', 'C10-d': '`<| {block}` no longer hoisted',
+    'C12-c': 'let ident re-spanned to the call site (hygiene through macro_rules!)', 'C12-d': 'earlier capture definitions dropped before an Err-arm block operand',
+    'C15-c': 'final try step built from `let` patterns (`let mut` gives invalid output)', 'C15-d': 'hoisted `??`/`->` block operands bypass their special expansion (panic / invalid output)',
+    'C19-c': 'captures inside wrappers `.clone()`d', 'C19-d': 'bare `move` closures hoisted like blocks',
 }
 rows = []
 for m in sorted(os.listdir(os.path.join(V, "seeded"))):
